@@ -199,7 +199,7 @@ func genEng(cliTier bool) func(t *rapid.T) EngCase {
 			}
 			c.Source = rapid.IntRange(0, 3).Draw(t, "source")
 			if len(c.Skip) > 0 {
-				c.Layout = rapid.IntRange(0, 2).Draw(t, "layout")
+				c.Layout = rapid.IntRange(0, 3).Draw(t, "layout")
 			}
 			return c
 		}
@@ -327,7 +327,7 @@ func TestCheck(t *testing.T) {
 			tier = "cli"
 			col.Class("cli/desired-state-source=" + []string{"database-url", "hcl-file", "hcl_schema-data-source", "sql-file"}[c.Source])
 			if len(c.Skip) > 0 {
-				col.Class("cli/skip-policy-layout=" + []string{"env-block", "project-block", "project-block-extended-by-env"}[c.Layout])
+				col.Class("cli/skip-policy-layout=" + []string{"env-block", "project-block", "project-block-extended-by-env", "project-block-and-empty-env-block"}[c.Layout])
 			}
 		}
 		col.Class(tier)
